@@ -67,6 +67,19 @@ _SMALL = [0, 1, 2, 3, 4, 0x20, 0x40, 0x60, 0x80, 0xff]
 _BIG = [2 ** 256 - 1, 2 ** 160 - 1, 2 ** 255, 0xffffffff]
 
 
+LEAVING_BLOCKS = [
+    "DUP2 DUP2 ADD SWAP2 ADD", "DUP2 DUP2 MUL SWAP2 MUL", "DUP2 DUP2 AND SWAP2 AND", "DUP1 DUP3 ADD DUP3 DUP3 ADD ADD",
+    "PUSH 1 PUSH 2 SSTORE PUSH 4 PUSH 3 SHA3", "PC PUSH 1 ADD", "PUSH 1 PUSH 2 SSTORE PC", "DUP1 MLOAD PUSH 5 PUSH 6 MSTORE PC POP",
+    "PUSH 1 PUSH 2 ADD", "PUSH 0 ADD", "NOT NOT", "DUP1 MLOAD DUP2 MLOAD ADD SWAP1 MSTORE", "PUSH 20 PUSH 0 KECCAK256 POP",
+    "PUSH 7 PUSH 0 MSTORE PUSH 0 MLOAD", "DUP1 SLOAD DUP2 SLOAD ADD SWAP1 SSTORE",
+]
+TARGET_BLOCKS = [
+    "PUSH 1 PUSH 2 ADD POP SSTORE SWAP1 POP", "SSTORE SWAP1 POP", "PUSH 0 ADD SSTORE", "DUP2 DUP2 SSTORE POP POP", "PUSH 0 ADD MSTORE",
+    "PUSH 1 PUSH 2 ADD SWAP1 MSTORE", "DUP1 SLOAD SWAP1 SSTORE", "PUSH 3 PUSH 4 MUL DUP2 MSTORE8 POP", "DUP2 DUP2 ADD SWAP2 ADD SWAP1 SSTORE",
+    "PUSH 1 PUSH 2 ADD POP MSTORE SWAP1 POP", "DUP3 DUP3 ADD DUP2 SSTORE POP POP POP", "PUSH 5 PUSH 0 MSTORE PUSH 0 MLOAD PUSH 1 PUSH 1 ADD ADD",
+]
+
+
 def gen_block_text(rng, n=None):
     """Random plain-text block without underflow beyond 6 inputs; shifts only with small constants."""
     n = n or rng.choice([3, 5, 8, 12, 18, 26, 34])
@@ -445,8 +458,21 @@ def check(run):
             _BLOCKS.append(b)
             idx.append(len(_BLOCKS) - 1)
         c["_idx"] = idx
+    # targeted two-block histories: a block that leaves something behind (instructions merged through commutativity,
+    # a front-end failure after stores were seen, rules, folds, memory accesses) followed by a small optimizable block
+    # with stores
+    tH, tB = [], []
+    for lst, texts in ((tH, LEAVING_BLOCKS), (tB, TARGET_BLOCKS)):
+        for t in texts:
+            try:
+                b = gasol.parse_block(t, "target%d" % len(_BLOCKS))
+            except Exception:
+                continue
+            b.verif_text = t
+            _BLOCKS.append(b)
+            lst.append(len(_BLOCKS) - 1)
     N = len(_BLOCKS)
-    run.log("blocks: %d from contract, %d generated, %d corpus" % (len(cb), len(gb), N - len(cb) - len(gb)))
+    run.log("blocks: %d from contract, %d generated, %d corpus, %d targeted" % (len(cb), len(gb), N - len(cb) - len(gb) - len(tH) - len(tB), len(tH) + len(tB)))
 
     onames = list(OPTION_SETS)
     n_hist = 5 if quick else 30
@@ -460,7 +486,7 @@ def check(run):
         opts = OPTION_SETS[oname]
         t0 = time.time()
         # thorough: every block has a baseline; quick: a sample (histories draw from it)
-        idxs = list(range(N)) if not quick else sorted(set(rng.sample(range(len(cb)), min(len(cb), 25))) | set(rng.sample(range(len(cb), N), min(N - len(cb), 15))))
+        idxs = list(range(N)) if not quick else sorted(set(rng.sample(range(len(cb)), min(len(cb), 25))) | set(rng.sample(range(len(cb), N), min(N - len(cb), 15))) | set(tH) | set(tB))
         base = _baseline(opts, idxs, 60)
         bad_base = [i for i in idxs if "status" in base[i]]
         usable = [i for i in idxs if "status" not in base[i]]
@@ -474,6 +500,14 @@ def check(run):
         for c in corpus:
             if c.get("options_name", oname) == oname and all(i in usable for i in c["_idx"]):
                 items.append({"h": c["_idx"], "snap": False})
+        for hblk in (tH if (not quick or oname in ("default", "storage")) else []):
+            if hblk in usable or hblk in bad_base:
+                h = []
+                for b in tB:
+                    if b in usable:
+                        h += [hblk, b]
+                if h:
+                    items.append({"h": h, "snap": False})
         for k in range(n_hist):
             L = rng.choice([2, 5, hist_len // 2, hist_len])
             h = [rng.choice(usable) for _ in range(L)]
